@@ -6,11 +6,20 @@ from harness.core import exc_kind
 
 PROP = 'C06'
 PROPS_FILE = 'Props/C06.v'
-COQ_HEADER = ('From Coq Require Import List ZArith Floats.PrimFloat. Import ListNotations.\n'
-              'From ByC Require Import Base.Result Harness.Compare Model.Labels.\nOpen Scope float_scope.')
-COQ_RUNNER = 'bad_labels_cycles'
-COQ_TYPES = ('(float * float * float * float) * Z * list (float * float * float * float)', 'result (list bool)')
-SHARD = 300
+from harness import pipeline
+COQ_STREAMS = {
+    'table': ('From Coq Require Import List ZArith Floats.PrimFloat. Import ListNotations.\n'
+              'From ByC Require Import Base.Result Harness.Compare Model.Labels.\nOpen Scope float_scope.',
+              'bad_labels_cycles',
+              ('(float * float * float * float) * Z * list (float * float * float * float)', 'result (list bool)'), 300),
+    'pipe': (pipeline.COQ_HEADER, pipeline.COQ_RUNNER, pipeline.COQ_TYPES, pipeline.SHARD),
+}
+TRUST = pipeline.TRUST
+
+
+def stream_of(c):
+    return 'table' if c['kind'] == 'table' else 'pipe'
+
 RULE = ('synthetic cycle tables whose four feature columns take values on, one ulp below and one ulp above the '
         'thresholds (plus 0, 1, NaN, inf), threshold vectors from a grid in [0,1]^4 and out-of-range/NaN values, '
         'min_n_cycles in -1..6; plus compute_features(burst_method="cycles") on generated signals with the '
@@ -60,11 +69,9 @@ def cases(rng, tier):
         given = sorted(rng.sample(range(4), nkeys))
         out.append({'kind': 'table', 'thr': _hexrow(thr), 'given': given, 'n': n, 'n_given': rng.random() < 0.8,
                     'rows': rows})
-    try:
-        from harness import pipeline
-        out.extend(pipeline.cases_c06(rng, tier))
-    except ImportError:
-        pass
+    npipe = 90 if tier == 'quick' else 900
+    for _ in range(npipe):
+        out.append(pipeline.gen_case(rng, tier, methods=('cycles',), fek_prob=0.3))
     return out
 
 
@@ -98,8 +105,7 @@ def run_impl(c):
         lab = [bool(x) for x in np.asarray(res['is_burst'])]
         same = all(np.array_equal(np.asarray(res[col]), np.asarray(before[col]), equal_nan=True) for col in before.columns)
         return {'labels': lab, 'features_unchanged': bool(same)}
-    from harness import pipeline
-    return pipeline.run_c06(c)
+    return pipeline.run_pipe(c)
 
 
 def _spec_labels(eff, n, rows):
@@ -123,15 +129,14 @@ def _spec_labels(eff, n, rows):
 
 def oracle(c, o):
     if c['kind'] != 'table':
-        from harness import pipeline
-        return pipeline.oracle_c06(c, o)
+        return pipeline.oracle_labels_cycles(c, o)
     eff, n = _effective(c)
     rows = [[_unhex(h) for h in r] for r in c['rows']]
     bad_thr = any((t < 0) or (t > 1) for t in eff)
     if bad_thr:
         return None if o.get('err') == 'Value' else 'threshold outside [0,1] not rejected with ValueError: %s' % o
     if not rows:
-        return None if 'err' in o else 'empty table accepted'
+        return None if o.get('labels') == [] else 'empty table not labelled by an empty column: %s' % o
     if n < 0:
         return None if o.get('err') == 'Value' else 'negative min_n_cycles not rejected: %s' % o
     if 'err' in o:
@@ -153,21 +158,19 @@ def oracle(c, o):
 
 def nontrivial(c, o):
     if c['kind'] != 'table':
-        from harness import pipeline
-        return pipeline.nontrivial_c06(c, o)
+        return pipeline.nontrivial_table(c, o, need_labels=True)
     if 'err' in o:
         return len(c['rows']) > 0
     return len(o['labels']) >= 3 and any(o['labels']) and not all(o['labels'])
 
 
 def kind_of(c, o):
-    return c['kind'] + ('/err' if 'err' in o else '')
+    return c['kind'] + ('/err' if 'err' in o else '') if c['kind'] == 'table' else pipeline.kind_of(c, o)
 
 
 def coq_case(c, o):
     if c['kind'] != 'table':
-        from harness import pipeline
-        return pipeline.coq_case_c06(c, o)
+        return pipeline.coq_case(c, o)
     eff, n = _effective(c)
     rows = [[_unhex(h) for h in r] for r in c['rows']]
     inp = '((%s), %s, %s)' % (', '.join(coqio.fl(t) for t in eff), coqio.Z(n) + '%Z',
